@@ -95,6 +95,16 @@ def normalise_returns(n, is_exit):
     out = {k: normalise_returns(v, is_exit) if isinstance(v, (dict, list)) else v for k, v in n.items()}
     if out.get('k') == 'CompoundStmt':
         c = out.get('c', [])
+        # single-exit style:  if (c) { report error; } else { compute rv; }  return rv;     ==>   if (c) { report error; return rv; } compute; return rv;
+        for i, st in enumerate(c):
+            if st.get('k') == 'IfStmt' and st.get('else') and i + 1 < len(c) and c[i + 1].get('k') == 'ReturnStmt' and i + 2 == len(c):
+                th = st['then'].get('c', []) if st['then'].get('k') == 'CompoundStmt' else [st['then']]
+                if th and all(strip_casts(x).get('k') == 'CallExpr' and strip_casts(x).get('callee') in ERR_PLUMBING for x in th):
+                    el = st['else'].get('c', []) if st['else'].get('k') == 'CompoundStmt' else [st['else']]
+                    out['c'] = c[:i] + [{'k': 'IfStmt', 'ln': st.get('ln'), 'cond': st['cond'],
+                                         'then': {'k': 'CompoundStmt', 'ln': st.get('ln'), 'c': th + [c[i + 1]]}}] + el + [c[i + 1]]
+                    c = out['c']
+                    break
         for i, st in enumerate(c):
             if st.get('k') == 'IfStmt' and not st.get('else') and _is_value_return(st.get('then') or {}) and i + 1 < len(c):
                 rest = {'k': 'CompoundStmt', 'ln': c[i + 1].get('ln'), 'c': c[i + 1:]}
@@ -117,6 +127,11 @@ class CSide:
         self._fp = {}
         self._ftab = {}
         self.const_values = {}
+        from .absint import rule_named_functions
+        named = rule_named_functions()
+        for f in prog.src_funcs():
+            if f.get('static') and f.get('body') and f['name'] not in named:
+                TRANSPARENT_HELPERS.add(f['name'])
 
     def is_obj_macro(self, name):
         """object-like macro that stands for a value (not for statements)"""
@@ -145,6 +160,14 @@ class CSide:
             for key in ('then', 'else'):
                 if key in n:
                     self._walk(n[key], fp, f, index)
+            return
+        if k in ('SwitchStmt', 'CaseStmt') and getattr(self, '_skip_cond', False):
+            # the selector and the case labels are conditions too (switch is another spelling of an if-chain)
+            for key in ('body', 'sub'):
+                if isinstance(n.get(key), dict):
+                    self._walk(n[key], fp, f, index)
+            for x in n.get('c', []) if k == 'SwitchStmt' else []:
+                pass
             return
         mac = n.get('m') if n.get('mw') else None
         if mac:
@@ -291,6 +314,10 @@ class CSide:
         return fp
 
 
+# static helper functions that no rule names: transparent (filled by CSide from the program)
+TRANSPARENT_HELPERS = set()
+
+
 def is_error_exit_c(stmt):
     """a block whose statements are: report an error, release things, return"""
     body = stmt.get('c', []) if stmt.get('k') == 'CompoundStmt' else [stmt]
@@ -305,6 +332,8 @@ def is_error_exit_c(stmt):
             rets = True
         elif _is_store(s0):
             pass                      # out-parameters are cleared on failure
+        elif s0.get('k') == 'CallExpr' and s0.get('callee') and s0.get('callee') in TRANSPARENT_HELPERS:
+            pass                      # a static helper of the same unit (e.g. one that clears the out-parameters)
         elif s0.get('k') == 'IfStmt' and not s0.get('else') and _is_store(_single(s0.get('then') or {})):
             pass
         else:
